@@ -512,10 +512,10 @@ class IntPart(FiPart):
     name = "main"
 
     def generate(self, rng, tier):
-        n = 140 if tier == "quick" else 500
+        n = 140 if tier == "quick" else 1500
         hs = [gen_history(rng, tier, "int") for _ in range(n)]
         if tier != "quick":
-            hs += [gen_history(rng, tier, "int", big=True) for _ in range(2)]
+            hs += [gen_history(rng, tier, "int", big=True) for _ in range(4)]
         return with_hints(hs)
 
 
@@ -525,7 +525,7 @@ class StrPart(FiPart):
     name = "str"
 
     def generate(self, rng, tier):
-        n = 60 if tier == "quick" else 250
+        n = 60 if tier == "quick" else 600
         return with_hints([gen_history(rng, tier, "str") for _ in range(n)], stop_at_opaque_merge=True)
 
 
@@ -535,7 +535,7 @@ class StrOraclePart(FiPart):
     compare_model = False
 
     def generate(self, rng, tier):
-        n = 40 if tier == "quick" else 150
+        n = 40 if tier == "quick" else 400
         return [gen_history(rng, tier, "str") for _ in range(n)]
 
 
